@@ -17,26 +17,40 @@ Import ListNotations.
 Open Scope Z_scope.
 
 (* ---- content tree ------------------------------------------------------ *)
-Inductive vt := CONTAINER | TEXT | CODE | NUM | IMAGE | COMPOSITE | SCOORD | SCOORD3D | UIDREF.
+Inductive vt := CONTAINER | TEXT | CODE | NUM | IMAGE | COMPOSITE | SCOORD | SCOORD3D | UIDREF
+               | DATE | TIME | DATETIME | PNAME | TCOORD | WAVEFORM.
 
 Definition vt_code (t : vt) : Z :=
   match t with
   | CONTAINER => 0 | TEXT => 1 | CODE => 2 | NUM => 3 | IMAGE => 4
   | COMPOSITE => 5 | SCOORD => 6 | SCOORD3D => 7 | UIDREF => 8
+  | DATE => 9 | TIME => 10 | DATETIME => 11 | PNAME => 12 | TCOORD => 13 | WAVEFORM => 14
   end.
 Definition vt_eqb (a b : vt) : bool := vt_code a =? vt_code b.
 
 (* value type, concept-name code value, relationship type (0 = none,
    1 CONTAINS, 2 HAS PROPERTIES, 3 INFERRED FROM, 4 SELECTED FROM),
    referenced (instance uid, class uid) if the item carries a
-   ReferencedSOPSequence, children (ContentSequence; [] = absent or empty) *)
-Inductive item := Item (t : vt) (tag : Z) (rel : Z) (ref : option (Z * Z)) (kids : list item).
+   ReferencedSOPSequence, OPTIONAL ATTRIBUTES of the item as (key, values)
+   pairs in key order (everything an item may carry besides the above: the
+   harness numbers them - 1 ContentTemplateSequence (template identifier),
+   2 ContinuityOfContent = SEPARATE, 3 NumericValueQualifierCodeSequence,
+   4 integer NumericValue without FloatingPointValue, 5 ReferencedFrameNumber,
+   6 ReferencedSegmentNumber, 7 PixelOriginInterpretation, 8 FiducialUID,
+   9 multi-point graphic, 10/11/12 the TCOORD alternatives, 13
+   ReferencedWaveformChannels, >= 20 attributes that no highdicom constructor
+   writes, e.g. 20 ObservationUID, 21 ObservationDateTime),
+   children (ContentSequence; [] = absent or empty) *)
+Definition attrs := list (Z * list Z).
+Inductive item :=
+  Item (t : vt) (tag : Z) (rel : Z) (ref : option (Z * Z)) (ats : attrs) (kids : list item).
 
-Definition i_vt (it : item) := match it with Item t _ _ _ _ => t end.
-Definition i_tag (it : item) := match it with Item _ g _ _ _ => g end.
-Definition i_rel (it : item) := match it with Item _ _ r _ _ => r end.
-Definition i_ref (it : item) := match it with Item _ _ _ r _ => r end.
-Definition i_kids (it : item) := match it with Item _ _ _ _ k => k end.
+Definition i_vt (it : item) := match it with Item t _ _ _ _ _ => t end.
+Definition i_tag (it : item) := match it with Item _ g _ _ _ _ => g end.
+Definition i_rel (it : item) := match it with Item _ _ r _ _ _ => r end.
+Definition i_ref (it : item) := match it with Item _ _ _ r _ _ => r end.
+Definition i_attrs (it : item) := match it with Item _ _ _ _ a _ => a end.
+Definition i_kids (it : item) := match it with Item _ _ _ _ _ k => k end.
 
 (* ---- find_content_items -------------------------------------------------- *)
 Record query := Query { q_name : option Z; q_vt : option vt; q_rel : option Z }.
@@ -52,7 +66,7 @@ Definition matches (q : query) (it : item) : bool :=
 Fixpoint find_item (recursive : bool) (p : item -> bool) (it : item) : list item :=
   (if p it then [it] else []) ++
   (if recursive
-   then match it with Item _ _ _ _ ks => flat_map (find_item recursive p) ks end
+   then match it with Item _ _ _ _ _ ks => flat_map (find_item recursive p) ks end
    else []).
 
 Definition search_tree (recursive : bool) (p : item -> bool) (node : item) : list item :=
@@ -234,9 +248,47 @@ Definition get_evidence_series (d : doc) (current_only : bool) : list (Z * Z) :=
 
 (* ---- parsing: X.from_dataset and srread --------------------------------------
    The file written from a document and read back is modelled as the document
-   value itself (premise W1: pydicom writer/reader round trip). *)
+   value itself (premise W1: pydicom writer/reader round trip).
+   _SR.from_dataset REBUILDS the root item from five attributes of the parsed
+   dataset - ConceptNameCodeSequence, ContentSequence, ValueType,
+   ContinuityOfContent and (if present) ContentTemplateSequence - and converts it
+   with MeasurementReport.from_sequence when the template identifier is 1500,
+   with ContentSequence.from_sequence(is_root=True) otherwise; both convert the
+   whole tree in place and differ only in the Python type of `.content`. *)
+Definition k_template : Z := 1.
+Definition k_separate : Z := 2.
+Definition root_key (k : Z) : bool := (k =? k_template) || (k =? k_separate).
+
+Definition reroot (it : item) : item :=
+  Item (i_vt it) (i_tag it) 0 None
+       (filter (fun kv : Z * list Z => root_key (fst kv)) (i_attrs it)) (i_kids it).
+
+Fixpoint attr_get (k : Z) (a : attrs) : option (list Z) :=
+  match a with
+  | [] => None
+  | (k', v) :: r => if k' =? k then Some v else attr_get k r
+  end.
+
+(* the template identifier of ContentTemplateSequence[0] is '1500' *)
+Definition is_report (it : item) : bool :=
+  match attr_get k_template (i_attrs it) with
+  | Some [t] => t =? 1500
+  | _ => false
+  end.
+
+Definition parse_root (it : item) : res item :=
+  if is_report it
+  then (if vt_eqb (i_vt it) CONTAINER then Ok (reroot it) else Err "ValueError")
+  else (if vt_eqb (i_vt it) CONTAINER then Ok (reroot it) else Err "TypeError").
+
+Definition set_content (d : doc) (it : item) : doc :=
+  Doc (d_cls d) it (d_current d) (d_other d) (d_pred d)
+      (d_complete d) (d_verified d) (d_final d) (d_observer d).
+
 Definition sr_from_dataset (target : sr_class) (has_cs : bool) (d : doc) : res doc :=
-  let base := if has_cs then Ok d else Err "ValueError" in
+  let base := if has_cs
+              then bind (parse_root (d_content d)) (fun r => Ok (set_content d r))
+              else Err "ValueError" in
   match target with
   | Enhanced => base                                   (* no SOP class check *)
   | Comprehensive => if d_cls d =? 1 then base else Err "ValueError"
@@ -259,10 +311,10 @@ Definition srread (d : doc) : res (sr_class * doc) :=
 Definition ko_content (title : Z) (descr : option Z) (refs : list (Z * Z * bool)) : res item :=
   match refs with
   | [] => Err "ValueError"
-  | _ => Ok (Item CONTAINER title 0 None
-               ((match descr with Some _ => [Item TEXT 113012 1 None []] | None => [] end) ++
+  | _ => Ok (Item CONTAINER title 0 None [(1, [2010])]          (* template_id='2010' *)
+               ((match descr with Some _ => [Item TEXT 113012 1 None [] []] | None => [] end) ++
                 map (fun r : Z * Z * bool => match r with (u, c, img) =>
-                       Item (if img then IMAGE else COMPOSITE) 260753009 1 (Some (u, c)) [] end) refs))
+                       Item (if img then IMAGE else COMPOSITE) 260753009 1 (Some (u, c)) [] [] end) refs))
   end.
 
 Definition ko_init (ev : list evd) (ts_ok : bool) (root : item) : res doc :=
@@ -287,10 +339,11 @@ Definition resolve_reference (d : doc) (u : Z) : res (Z * Z * Z) :=
 (* ---- boundary functions ------------------------------------------------------- *)
 Fixpoint item_val (it : item) : val :=
   match it with
-  | Item t g r rf ks =>
+  | Item t g r rf ats ks =>
       VL [VZ (vt_code t); VZ g; VZ r;
           match rf with None => VNone | Some uc => VL [VZ (fst uc); VZ (snd uc)] end;
-          VL (map item_val ks)]
+          VL (map item_val ks);
+          VL (map (fun kv : Z * list Z => VL [VZ (fst kv); vz_list (snd kv)]) ats)]
   end.
 
 Definition inst_val (i : inst) : val := VL [VZ (fst i); VZ (snd i)].
@@ -322,13 +375,16 @@ Definition run_collect (has_cs : bool) (ev : list evd) (root : item) : val :=
 Definition run_doc (c : sr_class) (a : sr_args) : val := vres doc_val (sr_init c a).
 
 (* build, write, srread: class of the parsed object and its observables *)
+Definition parsed_val (d : doc) : val :=
+  VL [VB (is_report (d_content d)); doc_val d].  (* .content is a MeasurementReport *)
+
 Definition run_roundtrip (c : sr_class) (a : sr_args) : val :=
-  vres (fun cd => VL [VZ (class_code (fst cd)); doc_val (snd cd)])
+  vres (fun cd => VL [VZ (class_code (fst cd)); parsed_val (snd cd)])
        (bind (sr_init c a) srread).
 
 (* X.from_dataset on a document of class c *)
 Definition run_from_dataset (c target : sr_class) (a : sr_args) : val :=
-  vres doc_val (bind (sr_init c a) (sr_from_dataset target true)).
+  vres parsed_val (bind (sr_init c a) (sr_from_dataset target true)).
 
 Definition run_ko (ev : list evd) (ts_ok : bool) (title : Z) (descr : option Z)
            (refs : list (Z * Z * bool)) (queries : list Z) : val :=
